@@ -66,6 +66,31 @@ CHECKS = {
     design_ref="DESIGN.md section 4 C05",
     note="Convergence is observed, not derived. Corrupted plants are shown to be rejected by TLC on every run (anti-vacuity).",
     technique="TLC-verified planted instances + TLC trace validation against the classification contract"),
+ "C07": dict(
+    category="model_checking",
+    text="(a) KktFactory.tla generates every history of Factor(W)/Solve(b) calls on one factory object up to a bound and states that a solve "
+         "belongs to the latest factorisation; each history is replayed on the five built-in KKT solvers (dense/sparse, with/without the "
+         "nonlinear block, H = R'R) on planted lattice systems (rational scalings with exact inverses, chosen solution, right-hand side "
+         "computed exactly), and MC_Kkt.tla decides with TLC, in exact rational arithmetic and with ConeAlgebra's independent definition of W, "
+         "whether every returned (rounded) solution satisfies the documented block system. (b) every scaling dictionary handed to the KKT "
+         "solver during real conelp/coneqp/cpl solves is checked for the documented invariants and W z = W^-T s = lambda; the contract "
+         "invariant ScalingInvariants is evaluated by TLC on every trace.",
+    design_ref="DESIGN.md section 4 C07",
+    note="(a) is exact on the lattice (the floats must round to the planted solution within 1e-8). (b) is decided by the abstraction function on "
+         "non-lattice floats with tolerance 1e-10 relative to the norms of the factors. kktreg is not covered.",
+    technique="TLA+ protocol model (TLC) generating histories + TLC exact-rational decision of the KKT block equation; TLC trace validation of scaling invariants"),
+ "C08": dict(
+    category="model_checking",
+    text="ConeAlgebra.tla defines every kernel (scale, scale2, pack, pack2, unpack, sdot, snrm2, sgemv, trisc, triusc, symm, sprod, ssqr, sinv, "
+         "max_step, jdot, jnrm2) from its mathematical definition in exact rational arithmetic (sqrt(2) weights symbolically). The harness "
+         "enumerates argument cases (dims with empty and order-0/1 blocks, mnl, flags, offsets, two-column arguments, lattice data), TLC "
+         "computes the expected result of every case and checks the algebraic identities on it (scale/inverse, adjointness, sinv o sprod, "
+         "triusc o trisc ...), and both implementations - compiled misc_solvers and the in-tree Python fallbacks - are compared with it on "
+         "canary-padded buffers (referenced cells equal, everything outside the addressed blocks untouched).",
+    design_ref="DESIGN.md section 4 C08",
+    note="TLC acts as exact oracle (constant-level evaluation, no state space); comparison tolerance 64 ulp of the data magnitude; only "
+         "rational spectra for max_step (characterised as boundary point of the cone).",
+    technique="TLA+ definitional spec evaluated by TLC on harness-enumerated cases; differential replay into both kernel implementations"),
  "C09": dict(
     category="model_checking",
     text="SolverAPI.tla is a state machine over the global options dictionary: SetGlobal edits it, Call(entry, per-call dict, uses per-call) "
